@@ -27,7 +27,7 @@ import (
 // instrumented; RegistryTrace.tla validates the log knowing only this real-time order.
 
 func decID(d decoration.Decoration) string {
-	if d == decoration.EmptyDecoration {
+	if d == (decoration.Decoration{}) { // (the zero value itself, not the library's variable that names it)
 		return "EMPTY"
 	}
 	h := sha1.Sum([]byte(fmt.Sprintf("%+v", d)))
@@ -42,8 +42,8 @@ func decFromToken(tok string) decoration.Decoration {
 
 var regClock atomic.Int64
 
-// regLog is one goroutine's own list of lines (no shared structure is touched between the two stamps of a
-// call, so the driver adds no synchronisation that could hide a race in the library).
+// regLog is one goroutine's own list of lines. (The two stamps of a call are reads of one atomic clock: each is
+// itself a synchronisation point, so the stamped runs are complemented by an unstamped pass -- see stress.)
 type regLog struct {
 	g     int
 	lines []M
@@ -157,7 +157,9 @@ func runRegistryMode(in *os.File, out *bufio.Writer) {
 	for _, n := range decoration.RegisteredDecorationNames() {
 		init = append(init, []interface{}{n, decID(decoration.Named(n))})
 	}
-	writeLine(out, M{"ev": "init", "names": init, "early": early})
+	// (the documented built-in names are a constant of this driver, not read from the library)
+	writeLine(out, M{"ev": "init", "names": init, "early": early,
+		"builtins": []interface{}{"ascii-simple", "none", "utf8-light", "utf8-light-curved", "utf8-heavy", "utf8-double"}})
 
 	sc := bufio.NewScanner(in)
 	sc.Buffer(make([]byte, 1<<20), 1<<26)
@@ -263,12 +265,54 @@ func runRegistryMode(in *os.File, out *bufio.Writer) {
 			waitOrHang(&wg, scen)
 			// quiescent read-back: once the registrations have finished, the latest one is what every name
 			// denotes, and both listings show every registered name
+			// (several lookups per name: when the last registrations of a name overlapped each other either may be the
+			// latest, but every lookup must name the same one)
 			q := &regLog{g: G + 1}
-			for i := 0; i < 4; i++ {
-				q.do(M{"op": "named", "name": fmt.Sprintf("n%d", i)}, prefix)
+			for k := 0; k < 3; k++ {
+				for i := 0; i < 4; i++ {
+					q.do(M{"op": "named", "name": fmt.Sprintf("n%d", i)}, prefix)
+				}
 			}
 			q.do(M{"op": "list"}, prefix)
-			nops += flushRegLogs(out, scen, append(logs, q))
+			// the same again from goroutines of their own, concurrently (lookups only: still quiescent for every name)
+			qs := make([]*regLog, 3)
+			var qwg sync.WaitGroup
+			for k := range qs {
+				qs[k] = &regLog{g: G + 2 + k}
+				qwg.Add(1)
+				go func(rl *regLog) {
+					defer qwg.Done()
+					for i := 0; i < 4; i++ {
+						rl.do(M{"op": "named", "name": fmt.Sprintf("n%d", i)}, prefix)
+					}
+				}(qs[k])
+			}
+			waitOrHang(&qwg, scen)
+			nops += flushRegLogs(out, scen, append(append(logs, q), qs...))
+			// an unstamped pass for the race detector alone: the clock above is itself a synchronisation (every
+			// stamp orders the calls around it), which on few cores can hide an unsynchronised access
+			var hwg sync.WaitGroup
+			for p := 0; p < G; p++ {
+				hwg.Add(1)
+				go func(p int) {
+					defer hwg.Done()
+					rng := rand.New(rand.NewSource(seed*7000 + int64(p)))
+					for i := 0; i < N; i++ {
+						name := prefix + fmt.Sprintf("n%d", rng.Intn(4))
+						switch r := rng.Intn(10); {
+						case r < 3:
+							decoration.RegisterDecorationName(name, decFromToken(fmt.Sprintf("%sh%d_%d", prefix, p, i)))
+						case r < 7:
+							decoration.Named(name)
+						case r < 8:
+							auto.ListStyles()
+						default:
+							decoration.RegisteredDecorationNames()
+						}
+					}
+				}(p)
+			}
+			waitOrHang(&hwg, scen)
 			ls := auto.ListStyles()
 			il := make([]interface{}, len(ls))
 			for i, x := range ls {
